@@ -70,8 +70,23 @@ func (m *Machine) global(g *ssa.Global) *Obj {
 		v = m.zero(elem)
 	}
 	o := m.newObj(v, elem, g.String())
+	if g.Pkg != nil && !m.ld.isRepoPkg(g.Pkg.Pkg.Path()) && !types.Identical(elem, types.Universe.Lookup("error").Type()) && !externZeroOK[g.String()] {
+		o.externUninit = true
+	}
 	m.globals[g] = o
 	return o
+}
+
+// externZeroOK lists globals of packages whose init is not executed that may
+// be read as zero values (their content is irrelevant to the models that
+// receive them). Every other read of such a global is a hard error: the
+// package's tables were never initialised, so interpreted library code would
+// silently compute nonsense.
+var externZeroOK = map[string]bool{
+	"github.com/dgraph-io/badger/v2.DefaultIteratorOptions": true,
+	"encoding/base64.StdEncoding":                            true,
+	"encoding/base64.URLEncoding":                            true,
+	"github.com/gorilla/websocket.DefaultDialer":             true,
 }
 
 // externGlobal materialises globals of packages whose init is not run.
